@@ -544,6 +544,10 @@ func (f *File) Read(p []byte) (n int, err error) {
 	f.ioLock.Lock()
 	defer f.ioLock.Unlock()
 
+	return f.readWithoutLocking(p)
+}
+
+func (f *File) readWithoutLocking(p []byte) (n int, err error) {
 	if f.writeBuf != nil {
 		return f.writeBuf.Read(p)
 	}
@@ -619,11 +623,26 @@ func (f *File) ReadAt(p []byte, off int64) (n int, err error) {
 		return -1, config.ErrIsDirectory
 	}
 
-	if _, err := f.Seek(off, io.SeekStart); err != nil {
+	f.ioLock.Lock()
+	defer f.ioLock.Unlock()
+
+	// A positioned read leaves the cursor where it was
+	curr, err := f.seekWithoutLocking(0, io.SeekCurrent)
+	if err != nil {
 		return -1, err
 	}
 
-	return f.Read(p)
+	if _, err := f.seekWithoutLocking(off, io.SeekStart); err != nil {
+		return -1, err
+	}
+
+	n, err = f.readWithoutLocking(p)
+
+	if _, serr := f.seekWithoutLocking(curr, io.SeekStart); serr != nil {
+		return -1, serr
+	}
+
+	return n, err
 }
 
 // Read/write operations
@@ -699,11 +718,23 @@ func (f *File) WriteAt(p []byte, off int64) (n int, err error) {
 		return -1, err
 	}
 
+	// A positioned write leaves the cursor where it was
+	curr, err := f.seekWithoutLocking(0, io.SeekCurrent)
+	if err != nil {
+		return -1, err
+	}
+
 	if _, err := f.seekWithoutLocking(off, io.SeekStart); err != nil {
 		return -1, err
 	}
 
-	return f.writeBuf.Write(p)
+	n, err = f.writeBuf.Write(p)
+
+	if _, serr := f.seekWithoutLocking(curr, io.SeekStart); serr != nil {
+		return -1, serr
+	}
+
+	return n, err
 }
 
 func (f *File) WriteString(s string) (ret int, err error) {
